@@ -196,39 +196,48 @@ pub struct FilterCfg {
     pub closure: Option<usize>,
     /// build `cli::Opts` through real clap parsing (only legal combinations)
     pub via_clap: bool,
+    /// through `run_and_exit()` / `filter_run_and_exit()` instead of `run()` / `filter_run()`
+    pub exit: bool,
 }
 
 pub fn filter_cfgs(nform: usize) -> Vec<FilterCfg> {
     let mut v = Vec::new();
-    v.push(FilterCfg { re: None, tags: None, closure: None, via_clap: false });
-    v.push(FilterCfg { re: None, tags: None, closure: None, via_clap: true });
+    v.push(FilterCfg { re: None, tags: None, closure: None, via_clap: false, exit: false });
+    v.push(FilterCfg { re: None, tags: None, closure: None, via_clap: true, exit: false });
     for t in 0..nform {
-        v.push(FilterCfg { re: None, tags: Some(t), closure: None, via_clap: false });
-        v.push(FilterCfg { re: None, tags: Some(t), closure: None, via_clap: true });
+        v.push(FilterCfg { re: None, tags: Some(t), closure: None, via_clap: false, exit: false });
+        v.push(FilterCfg { re: None, tags: Some(t), closure: None, via_clap: true, exit: false });
     }
     for r in 0..REGEXES.len() {
-        v.push(FilterCfg { re: Some(r), tags: None, closure: None, via_clap: false });
-        v.push(FilterCfg { re: Some(r), tags: None, closure: None, via_clap: true });
+        v.push(FilterCfg { re: Some(r), tags: None, closure: None, via_clap: false, exit: false });
+        v.push(FilterCfg { re: Some(r), tags: None, closure: None, via_clap: true, exit: false });
     }
     for c in 0..4 {
-        v.push(FilterCfg { re: None, tags: None, closure: Some(c), via_clap: false });
+        v.push(FilterCfg { re: None, tags: None, closure: Some(c), via_clap: false, exit: false });
     }
     // combinations of sources (precedence): name > tags > closure
     for r in [0usize, 3] {
         for t in [0usize, 2, 9] {
-            v.push(FilterCfg { re: Some(r), tags: Some(t), closure: None, via_clap: false });
+            v.push(FilterCfg { re: Some(r), tags: Some(t), closure: None, via_clap: false, exit: false });
             for c in [1usize, 2] {
-                v.push(FilterCfg { re: Some(r), tags: Some(t), closure: Some(c), via_clap: false });
+                v.push(FilterCfg { re: Some(r), tags: Some(t), closure: Some(c), via_clap: false, exit: false });
             }
         }
         for c in [1usize, 3] {
-            v.push(FilterCfg { re: Some(r), tags: None, closure: Some(c), via_clap: false });
+            v.push(FilterCfg { re: Some(r), tags: None, closure: Some(c), via_clap: false, exit: false });
         }
     }
     for t in [1usize, 5, 20] {
         for c in [0usize, 1, 2] {
-            v.push(FilterCfg { re: None, tags: Some(t), closure: Some(c), via_clap: false });
+            v.push(FilterCfg { re: None, tags: Some(t), closure: Some(c), via_clap: false, exit: false });
         }
+    }
+    // every configuration through the `_and_exit` entry points as well
+    let n = v.len();
+    for i in 0..n {
+        let mut c = v[i].clone();
+        c.exit = true;
+        v.push(c);
     }
     v
 }
@@ -302,13 +311,16 @@ pub fn run_one(fc: &FilterCfg, forms: &[TagExpr], feats: &[gherkin::Feature]) ->
         Rec::default(),
     )
     .with_cli(opts(fc, forms));
-    match fc.closure {
-        Some(k) => {
+    match (fc.closure, fc.exit) {
+        (Some(k), false) => {
             let _ = c.filter_run((), closure(k)).now_or_never().expect("suspended");
         }
-        None => {
+        (None, false) => {
             let _ = c.run(()).now_or_never().expect("suspended");
         }
+        // (nothing fails behind the recording runner, so these return normally)
+        (Some(k), true) => c.filter_run_and_exit((), closure(k)).now_or_never().expect("suspended"),
+        (None, true) => c.run_and_exit(()).now_or_never().expect("suspended"),
     }
     let got = RECEIVED.with(|r| r.borrow().clone());
     if got.len() != feats.len() {
@@ -368,7 +380,7 @@ pub fn order_case(m: usize, fi: usize) -> Option<String> {
     use cucumber::{runner::Basic, ScenarioType};
     let forms = formulas();
     let (re, tags) = ORDER_FILTERS[fi];
-    let fc = FilterCfg { re, tags, closure: None, via_clap: false };
+    let fc = FilterCfg { re, tags, closure: None, via_clap: false, exit: false };
     let feat = features().swap_remove(200);
     let expected: Vec<String> = {
         let e = expected(&fc, &forms, &feat);
@@ -532,7 +544,7 @@ pub fn run(a: &ShardArgs) -> serde_json::Value {
         "property": "C15", "tier": a.tier,
         "total_configs": fcs.len() * groups.len(), "configs_done": evaluations, "configs_skipped_budget": skipped,
         "evaluations": evaluations, "distinct_nontrivial": nontrivial,
-        "rule": format!("{} filter configurations ({} tag formulas of depth <= 2 (thorough: 3) over {{a,b}} directly and through clap, 4 name regexes, 4 closures, precedence combinations) x {} feature groups; plus 14 builder methods applied after with_cli(filter) x 3 filters, each in a child process with a clean argv ({} features: tags on feature x rule x scenarios); non-trivial = the filter keeps some but not all scenarios", fcs.len(), forms.len(), groups.len(), feats.len()),
+        "rule": format!("{} filter configurations ({} tag formulas of depth <= 2 (thorough: 3) over {{a,b}} directly and through clap, 4 name regexes, 4 closures, precedence combinations, each through run / filter_run and through run_and_exit / filter_run_and_exit) x {} feature groups; plus 14 builder methods applied after with_cli(filter) x 3 filters, each in a child process with a clean argv ({} features: tags on feature x rule x scenarios); non-trivial = the filter keeps some but not all scenarios", fcs.len(), forms.len(), groups.len(), feats.len()),
         "exhaustive": skipped == 0,
         "violations": violations, "samples": samples,
     })
